@@ -855,7 +855,8 @@ static struct upipe *alloc_ablk(struct ctx *c, struct node *n, struct uprobe *pr
 static struct uref *def_ablk_in(struct ctx *c, struct node *n, int v)
 {
     if (n->kind != K_SOUND || v == 3) return def_generic(c, n, v);
-    struct uref *u = def_ablk_out(c, n->fmt, v == 1 ? 480 : 48);
+    /* v == 2: another sample format / plane layout than the one the pipe was allocated with (the buffer manager it holds no longer fits) */
+    struct uref *u = def_ablk_out(c, v == 2 ? (n->fmt + 1) % SF_NFMT : n->fmt, v == 1 ? 480 : 48);
     extra(u, v);
     return u;
 }
